@@ -70,7 +70,8 @@ def c15(ctx):
                 files[link[1]] = ['link', link[2], files[link[1]]]
             levels.append({'files': files})
         return {'boundary': boundary, 'levels': levels, 'start': start, 'xdev': xdev, 'compr': compr, 'defaults': (ign_idx + start + boundary) % 2 == 0,
-                'via_link': (ign_idx * 7 + start * 3 + boundary) % 5 == 0}
+                'via_link': (ign_idx * 7 + start * 3 + boundary) % 5 == 0,
+                'chroot': boundary == 0 and link is None and (ign_idx + 2 * start + sum(map(len, lv_states))) % 3 == 0}
     combos = itertools.product(range(0, DEPTH + 1), range(1, DEPTH + 1), (True, False), (True, False))
     combos = list(combos)
     while len(cases) < n_target:
@@ -130,9 +131,12 @@ def c15(ctx):
                 else:
                     files.append([n, ['text', fdev, 'this is not gzip data']])
             levels.append([[devs[j], 0], files])
-        levels.append([[devs[0], 0], []])
-        for a in anc:
-            levels.append([[a['dev'], 1 if a['root'] else 0], []])
+        if res.get('chrooted'):
+            levels[-1][0][1] = 1         # l1 is the root directory of the process: nothing above it
+        else:
+            levels.append([[devs[0], 0], []])
+            for a in anc:
+                levels.append([[a['dev'], 1 if a['root'] else 0], []])
         reqs.append(['find_top_level', levels, res['comps'], 1 if c['xdev'] else 0, 1 if c['compr'] else 0])
     model = run_model(reqs, jobs=16)
     kinds = {}
@@ -169,4 +173,5 @@ def c15(ctx):
     ctx.count('top:chains', len(cases), len({json.dumps(c, sort_keys=True) for c in cases}),
               samples=[{'case': cases[0], 'result': out['results'][0]['res']}],
               dist=dict(kinds, realisation=out['realisation'], depth=DEPTH,
-                        with_boundary=sum(1 for c in cases if c['boundary'])))
+                        with_boundary=sum(1 for c in cases if c['boundary']),
+                        outermost_level_is_the_root_directory=sum(1 for x in out['results'] if x.get('chrooted'))))
